@@ -957,9 +957,85 @@ func c04Faults(r *Rng, sp scenSpec, base *scenOutcome, thorough bool) []fault {
 	return fs
 }
 
+// an INSERT that learns its columns from the server (Query.Result nil) whose server ends the query before any header block
+// (EndOfStream / a server exception right after the query packet), with an input callback that fails or ends the input, and
+// a caller context without deadline: the call must return, and the client must be closed or at a packet boundary
+func c04EarlyEndOfStream(c *Ctx) {
+	R := c.R
+	for _, reply := range []string{"eos", "exception", "progress-eos"} {
+		for _, input := range []string{"fails", "eof", "rows-eof"} {
+			rt := 60 * time.Millisecond
+			sc, err := connectSim(simOpts{readTimeout: rt})
+			if err != nil {
+				R.Note("early end of stream: %v", err)
+				return
+			}
+			switch reply {
+			case "eos":
+				sc.conn.feed(sc.enc.endOfStream())
+			case "progress-eos":
+				sc.conn.feed(sc.enc.progress(1, 2, 3, 4, 5, 6))
+				sc.conn.feed(sc.enc.endOfStream())
+			default:
+				sc.conn.feed(sc.enc.exception([]srvExc{{60, "DB::Exception", "DB::Exception: no such table", "st"}}))
+			}
+			a := new(proto.ColUInt8)
+			calls := 0
+			q := ch.Query{Body: "INSERT INTO t VALUES", Input: proto.Input{{Name: "a", Data: a}}, OnInput: func(ctx context.Context) error {
+				calls++
+				switch input {
+				case "fails":
+					return errCallbackFault
+				case "rows-eof":
+					a.Append(7)
+					return io.EOF
+				}
+				return io.EOF
+			}}
+			done := make(chan error, 1)
+			t0 := time.Now()
+			go func() { done <- sc.client.Do(context.Background(), q) }()
+			var derr error
+			hung := false
+			select {
+			case derr = <-done:
+			case <-time.After(rt + 2500*time.Millisecond):
+				hung = true
+			}
+			cs := map[string]any{"scenario": "insert with inferred columns, the server ends the query before any header block", "server_reply": reply, "input_callback": input, "error": fmt.Sprint(derr), "elapsed_ms": time.Since(t0).Milliseconds(), "read_timeout_ms": rt.Milliseconds()}
+			R.Case("early-eos|"+reply+"|"+input, true)
+			R.Count("shape:early-end-of-stream")
+			if hung {
+				R.Violate(Violation{Kind: "oracle", Key: "do-does-not-return", What: fmt.Sprintf("the server answered the INSERT with %s before any header block; Do (caller context without deadline, read timeout %v) did not return", reply, rt), Case: cs})
+				sc.conn.Close()
+				select {
+				case <-done:
+				case <-time.After(time.Second):
+				}
+				continue
+			}
+			if !sc.client.IsClosed() {
+				// open: the next request must be exactly a Ping, answered
+				w0, _, _, _ := sc.conn.snapshot()
+				sc.conn.feed(sc.enc.pong())
+				pctx, pcancel := context.WithTimeout(context.Background(), time.Second)
+				perr := sc.client.Ping(pctx)
+				pcancel()
+				w1, _, _, _ := sc.conn.snapshot()
+				if perr != nil || len(w1)-len(w0) != 1 || w1[len(w1)-1] != 4 {
+					cs["ping_error"], cs["ping_bytes"] = fmt.Sprint(perr), hx(w1[len(w0):])
+					R.Violate(Violation{Kind: "oracle", Key: "stale-bytes-before-next-request", What: fmt.Sprintf("after Do returned %v the client is open, but the next Ping wrote %s (want 04) / failed with %v", derr, hx(w1[len(w0):]), perr), Case: cs})
+				}
+			}
+			sc.client.Close()
+		}
+	}
+}
+
 func runC04(c *Ctx) {
 	R := c.R
 	defer c04EncodeFailureAndException(c)
+	defer c04EarlyEndOfStream(c)
 	R.Rule = "scenarios {select with result targets and all handlers, insert with schema exchange, streaming insert} x {plain, LZ4, ZSTD} x {telemetry packets or not}, each first run fault-free against the scripted server (reactive: schema block after the query, EndOfStream after the terminator) to learn stream lengths, callbacks and gates; then re-run on a fresh connection per fault: server stream cut after byte k (all k in thorough, sampled + ends in quick), write error after client byte k, callback j failing, input callback failing, unknown packet code / well-formed unexpected packet at each position, server exception injected at every sender gate (before/after each client write), exception together with a failing write; each under the orderings {free, sender resumes only after the receiver handled the packet, cancel-watch checks before the failing receiver returned} forced through the gates. After Do: closed => further Ping/Do return ErrClosed without touching the connection; open => the next Ping writes exactly 04, the bytes written for the failed query end at a flush boundary, the Ping is answered. non-trivial = a fault was injected; distinct by (scenario, fault)."
 	r := c.Rng
 	rt := 40 * time.Millisecond
